@@ -58,23 +58,26 @@ def graph_sx(spec, objs, root, st):
     return '(graph %s %d %s)' % (settings_sx(*st), root, ' '.join(nodes))
 
 
-def reference_print(spec, root):
-    """independent oracle: bracket / marker token sequence by a path-based DFS"""
+def reference_print(spec, root, depth=None):
+    """independent oracle: bracket / marker token sequence by a path-based DFS; with a depth limit a container that is not an
+    ancestor of itself is cut to its bare brackets once the budget is used up (the back-reference test comes first)"""
     out = []
 
-    def go(i, path):
+    def go(i, path, left):
         kind, kids = spec[i]
         if i in path:
             out.append('M%d' % i)
             return
-        out.append('([{'[0] if False else {0: '[', 1: '{', 2: '('}[kind])
-        for c in kids:
-            if c[0] == 'l':
-                out.append(str(c[1]))
-            else:
-                go(c[1], path | {i})
+        out.append({0: '[', 1: '{', 2: '('}[kind])
+        if left is None or left > 0:
+            below = None if left is None else left - 1
+            for c in kids:
+                if c[0] == 'l':
+                    out.extend([str(c[1])] if below != 0 else ['(', ')'])       # an int below the limit prints as int(...)
+                else:
+                    go(c[1], path | {i}, below)
         out.append({0: ']', 1: '}', 2: ')'}[kind])
-    go(root, frozenset())
+    go(root, frozenset(), depth)
     return out
 
 
@@ -144,7 +147,7 @@ def safe_pformat(obj, st, limit=1.5):
         with warnings.catch_warnings():
             warnings.simplefilter('ignore')
             try:
-                return pp.pformat(obj, width=st[1], ribbon_width=st[2])
+                return pp.pformat(obj, width=st[1], ribbon_width=st[2], depth=st[3])
             except _Timeout:
                 return 'EXC:does-not-terminate-within-%gs' % limit
             except Exception as e:
@@ -165,7 +168,8 @@ def graph_chunk(specs):
         objs = build_graph(spec)
         if objs is None:
             continue
-        for st in ((4, 79, 71, None, 1000, 0), (4, 12, 12, None, 1000, 0)):
+        finite = (1, 2, 3, 5)[(len(spec) + sum(len(k) for _, k in spec)) % 4]
+        for st in ((4, 79, 71, None, 1000, 0), (4, 12, 12, None, 1000, 0), (4, 79, 71, finite, 1000, 0)):
             text = safe_pformat(objs[0], st)
             # no residue: printing again, and printing the previous graph's root again, gives the same
             again = safe_pformat(objs[0], st)
@@ -176,8 +180,8 @@ def graph_chunk(specs):
             bad = None
             if text != again:
                 bad = 'printing the same value twice gives different text'
-            elif observed_tokens(text, objs) != reference_print(spec, 0):
-                bad = 'markers / brackets differ from the path-based reference: %s vs %s' % (observed_tokens(text, objs), reference_print(spec, 0))
+            elif observed_tokens(text, objs) != reference_print(spec, 0, st[3]):
+                bad = 'markers / brackets differ from the path-based reference: %s vs %s' % (observed_tokens(text, objs), reference_print(spec, 0, st[3]))
             if prev is not None and not bad:
                 ptext, pobj, pst = prev
                 if safe_pformat(pobj, pst) != ptext:
@@ -214,7 +218,7 @@ def graphs_section(tier, seed):
     stats = {'evaluations': tot, 'distinct_nontrivial': nt, 'graphs': len(specs), 'mismatches': len(mism),
              'samples': [{'graph': specs[-3]}, {'graph': specs[100]}],
              'rule': 'rooted object graphs of list / dict / tuple nodes: all 2-node graphs with <= 2 children per node (sampled in quick), sampled 3-node graphs (thorough), '
-                     'random graphs of 3-12 nodes, witnesses; each printed at two widths, printed again, and followed by re-printing the previous value; '
+                     'random graphs of 3-12 nodes, witnesses; each printed at two widths and under a finite depth limit (1, 2, 3 or 5), printed again, and followed by re-printing the previous value; '
                      'text compared with the model (real ids substituted), marker/bracket sequence compared with a path-based reference DFS; non-trivial = outputs with a recursion marker'}
     return stats, mism, fails
 
